@@ -1,99 +1,49 @@
 (* C01, collected: for every partition-creating algorithm the statement of C01
-   about THAT algorithm's model, derived from the theorems of the algorithm's
-   own development (C03, C09, C10, C11, C12, C13).  Nothing new is proved about
-   the algorithms here: every lemma is a projection of existing theorems plus a
-   few lines of glue (lengths, the empty input, the bounding box of a
-   well-shaped point set).  One Module per algorithm, so that the developments
-   are imported side by side without name clashes; the models are instantiated
-   with the generated constants exactly as Properties/C03, C09, C10, C13 do. *)
+   about THAT algorithm's model, derived from the PROPERTY THEOREMS of the
+   algorithm's own development (Properties/C03, C09, C10, C11, C12, C13).
+
+   Maintenance rule of this file: a lemma here may use
+     - theorems [Cxx_...] and instantiated models ([rcb_impl], [zcurve_impl_2d],
+       ...) of the other Properties files, by their qualified names;
+     - definitions of Model/*.v (to state things, and to unfold the first
+       lines of an entry point: length checks, the empty input);
+     - the predicates those property theorems are STATED with, wherever they
+       are defined (coords_ok, sort_contract, root_ok, wf_grid, ...);
+   and no lemma from the Proofs/*.v of another development, so that a
+   refactoring inside a development cannot break this file as long as the
+   development's property theorems keep their statements.  The single
+   exception is marked EXCEPTION below (CompleteKarmarkarKarp's error value).
+   One Module per algorithm; nothing is imported at top level, so the
+   developments are loaded side by side without name clashes. *)
 From Coupe Require Import Lib.Prelude Lib.SFloat.
 From Coq Require Import Floats.SpecFloat Permutation.
 From Coq Require QArith.QArith.
-(* loaded here, imported only inside the Module of the algorithm they belong to *)
-From Coupe Require Model.Rcb Gen.RcbGen Proofs.SFOrder Proofs.RcbProofs Proofs.RcbInst Proofs.RcbTotal.
-From Coupe Require Lib.Sorting Model.SfcPart Proofs.SortingProofs Proofs.SfcProofs Proofs.ZCurveProofs
-  Proofs.WqTermProofs Gen.SfcGen.
-From Coupe Require Model.MultiJagged Proofs.MultiJaggedProofs Proofs.MultiJaggedExact.
-From Coupe Require Model.NumPart Model.Greedy Model.Kk Proofs.NumPartLemmas Proofs.GreedyProofs Proofs.KkProofs.
-From Coupe Require Model.Ckk Proofs.CkkProofs Gen.CkkGen.
-From Coupe Require Model.GridRcb Gen.GridRcbGen Run.RunC10 Proofs.GridRcbMedian Proofs.GridRcbTree
-  Proofs.GridRcbChecker Proofs.GridRcbFloat Proofs.GridRcbMain.
+From Coupe Require Properties.C03 Properties.C09 Properties.C10 Properties.C11 Properties.C12 Properties.C13.
 
 (* ------------------------------------------------------------------ Rcb / Rib *)
 Module RcbC.
-  Import Coupe.Model.Rcb Coupe.Gen.RcbGen Coupe.Proofs.SFOrder Coupe.Proofs.RcbProofs
-         Coupe.Proofs.RcbInst Coupe.Proofs.RcbTotal.
+  Import Coupe.Model.Rcb Coupe.Proofs.RcbInst.   (* RcbInst: only [coords_ok], [to32] (vocabulary of C03's statements) *)
   Open Scope Z_scope.
 
-  (* as in Properties/C03.v, C04.v *)
-  Definition rcb_variant : variant := mkvariant rcb_old_rules rcb_by_coord rcb_probe_max rcb_safe_mid.
-  Definition rcb_impl := rcb rcb_variant.
-
-  Definition good_pair (good : spec_float -> bool) (b : spec_float * spec_float) : Prop :=
-    good (fst b) = true /\ good (snd b) = true.
-
-  Lemma column_total a : forall pts, Forall (fun pt : list spec_float => (a < length pt)%nat) pts ->
-    exists c, column a pts = Some c.
-  Proof.
-    induction 1 as [|pt t Hpt _ [c IH]]; cbn [column]; [eexists; reflexivity|].
-    destruct (nth_opt_lt pt a Hpt) as [x Hx]. rewrite Hx, IH. eexists; reflexivity.
-  Qed.
-
-  Lemma bbox32_total : forall D a pts, Forall (fun pt : list spec_float => (a + D <= length pt)%nat) pts ->
-    exists bb, bbox32 D a pts = Some bb /\ length bb = D.
-  Proof.
-    induction D as [|D IH]; intros a pts H; cbn [bbox32]; [exists []; split; reflexivity|].
-    destruct (column_total a pts) as [c Hc].
-    { rewrite Forall_forall in *. intros pt Hpt. specialize (H pt Hpt). lia. }
-    destruct (IH (S a) pts) as (r & Hr & Hl).
-    { rewrite Forall_forall in *. intros pt Hpt. specialize (H pt Hpt). lia. }
-    rewrite Hc, Hr. destruct (bbox_axis f64_max_value f64_min_value c) as [mn mx].
-    eexists. split; [reflexivity|]. cbn [length]. rewrite Hl. reflexivity.
-  Qed.
-
-  (* what is proved without any hypothesis on the float operations: whenever
-     the model returns Ok, every point has an id below 2^iter_count *)
+  (* whenever the model returns Ok: one id per point, every id below 2^iter_count *)
   Lemma rcb_range : forall fuel sched D k tol pts ws p0 p,
-    coords_ok pts -> rcb_impl fuel sched D k tol pts ws p0 = Ok p ->
+    coords_ok pts -> C03.rcb_impl fuel sched D k tol pts ws p0 = Ok p ->
     length p = length pts /\ (pts <> [] -> Forall (fun i => (i < 2 ^ N.of_nat k)%N) p).
-  Proof. exact (rcb_one_part_per_point rcb_variant). Qed.
+  Proof. exact C03.C03_one_part_per_point. Qed.
 
-  (* ... and with the rank embedding of RcbTotal as an explicit premise: Ok,
-     for every schedule *)
-  Lemma rcb_collect : forall (good : spec_float -> bool) (rank : spec_float -> Z) (rlo rhi : Z),
-    (forall a b, good a = true -> good b = true -> good (f32_mid (v_safe_mid rcb_variant) a b) = true) ->
-    (forall x y, good x = true -> good y = true -> flt x y = true -> rank x < rank y) ->
-    (forall x, good x = true -> rlo <= rank x <= rhi) ->
-    forall fuel sched D k tol pts ws p0,
-    (0 < D)%nat -> Forall (fun pt => length pt = D) pts -> coords_ok pts ->
-    length ws = length p0 -> length pts = length p0 ->
-    (forall bb, bbox32 D 0 pts = Some bb -> Forall (good_pair good) bb) ->
-    (1 <= fuel)%nat -> Z.of_nat fuel > rhi - rlo ->
-    exists p, rcb_impl fuel sched D k tol pts ws p0 = Ok p
+  (* Ok for every schedule, with the range: C03_rcb_total + C03_one_part_per_point *)
+  Lemma rcb_collect : forall fuel sched D k tol pts ws p0,
+    (0 < D)%nat -> length ws = length p0 -> length pts = length p0 ->
+    Forall (fun pt => length pt = D) pts ->
+    coords_ok pts -> box_ok32 D pts ws = true ->
+    Z.of_nat fuel > 2 ^ 33 ->
+    exists p, C03.rcb_impl fuel sched D k tol pts ws p0 = Ok p
               /\ length p = length pts /\ Forall (fun i => (i < 2 ^ N.of_nat k)%N) p.
   Proof.
-    intros good rank rlo rhi Hmid Hmono Hbnd fuel sched D k tol pts ws p0 HD Hshape Hok Hlw Hlp Hbox Hf1 Hf2.
-    assert (Hex : exists p, rcb_impl fuel sched D k tol pts ws p0 = Ok p).
-    { unfold rcb_impl, rcb. rewrite Hlw, Hlp, !Nat.eqb_refl. cbn [negb].
-      destruct pts as [|pt0 pts']; [eexists; reflexivity|]. cbv iota. set (pts := pt0 :: pts') in *.
-      destruct (bbox32_total D 0 pts) as (bb & Hbb & Hlbb).
-      { rewrite Forall_forall in *. intros pt Hpt. rewrite (Hshape pt Hpt). lia. }
-      rewrite Hbb. specialize (Hbox bb Hbb).
-      assert (Hlen : length pts = length ws) by lia.
-      change (v_old rcb_variant) with false.
-      apply (rcb_core_total spec_float flt fle (f32_mid (v_safe_mid rcb_variant)) f32_sub f32_add f32_zero f32_inf
-               (tol_test tol) (v_by_coord rcb_variant) (v_probe_max rcb_variant) f32v
-               flt_irrefl flt_negtrans fle_flt good rank rlo rhi Hmid Hmono Hbnd); auto.
-      - rewrite Forall_forall. intros it Hit.
-        assert (Hc : In (co it) (to32 pts)) by (rewrite <- (mk_items_co pts ws 0%N Hlen); apply in_map, Hit).
-        split.
-        + unfold to32 in Hc. apply in_map_iff in Hc as (pt & <- & Hpt). rewrite map_length.
-          rewrite Forall_forall in Hshape. exact (Hshape pt Hpt).
-        + unfold vitem. unfold coords_ok in Hok. rewrite Forall_forall in Hok. exact (Hok _ Hc).
-      - rewrite mk_items_ix by exact Hlen. rewrite Hlp. reflexivity.
-      - unfold pts. destruct ws; [cbn in Hlen; discriminate|]. cbn. discriminate. }
-    destruct Hex as [p Hp]. exists p. split; [exact Hp|].
-    destruct (rcb_range _ _ _ _ _ _ _ _ _ Hok Hp) as [Hl Hr]. split; [exact Hl|].
+    intros fuel sched D k tol pts ws p0 HD Hlw Hlp Hshape Hok Hbox Hf.
+    destruct (C03.C03_rcb_total fuel sched D k tol pts ws p0 HD Hlw Hlp Hshape Hok Hbox Hf) as [p Hp].
+    exists p. split; [exact Hp|].
+    destruct (C03.C03_one_part_per_point fuel sched D k tol pts ws p0 p Hok Hp) as [Hl Hr]. split; [exact Hl|].
     destruct pts as [|pt0 pts']; [|apply Hr; discriminate].
     destruct p; [constructor|discriminate].
   Qed.
@@ -101,96 +51,125 @@ End RcbC.
 
 (* ------------------------------------------------- HilbertCurve, ZCurve *)
 Module SfcC.
-  Import Coupe.Lib.Sorting Coupe.Model.SfcPart Coupe.Proofs.SortingProofs Coupe.Proofs.SfcProofs
-         Coupe.Proofs.ZCurveProofs Coupe.Proofs.WqTermProofs Coupe.Gen.SfcGen.
+  Import Coupe.Model.SfcPart Coupe.Gen.SfcGen.
   Open Scope nat_scope.
-
-  (* as in Properties/C09.v *)
-  Definition hilbert_impl_2d := hilbert_partition (f64_of_bits hilbert_split_tolerance_bits) hilbert_max_order_2d.
-  Definition hilbert_impl_3d := hilbert_partition (f64_of_bits hilbert_split_tolerance_bits) hilbert_max_order_3d.
-  Definition zcurve_impl_2d := zcurve zcurve_chunk_guard 4 zcurve_max_order_2d.
-  Definition zcurve_impl_3d := zcurve zcurve_chunk_guard 8 zcurve_max_order_3d.
 
   Definition in_range (k : nat) (n : nat) (p : list N) : Prop :=
     length p = n /\ Forall (fun x => (x < N.of_nat k)%N) p.
 
-  (* an Ok result has the range property (the empty input included) *)
-  Lemma hilbert_ok_range tol maxo order fuel idx ws k p0 p :
-    length idx = length p0 -> hilbert_partition tol maxo order fuel idx ws k p0 = Ok p ->
-    in_range k (length p0) p.
-  Proof.
-    intros HL H. destruct p0 as [|x0 p0'].
-    - unfold hilbert_partition in H. destruct (maxo <? order)%N; [discriminate|].
-      injection H as <-. split; [reflexivity|constructor].
-    - assert (Hne : x0 :: p0' <> []) by discriminate.
-      destruct (hilbert_partition_monotone tol maxo order fuel idx ws k (x0 :: p0') p Hne HL H)
-        as (_ & _ & A & _ & B). split; assumption.
-  Qed.
+  Section Hilbert.
+    (* one development for both dimensions: [tol], [maxo] are the constants of the
+       instance, [Hmono] is C09_hilbert_2d resp. C09_hilbert_3d *)
+    Variable tol : spec_float.
+    Variable maxo : N.
+    Notation hp := (hilbert_partition tol maxo).
+    Variable M : list (N * N) -> Prop.      (* the monotonicity clause, not needed here *)
+    Hypothesis Hmono : forall order fuel idx ws k p0 p,
+      p0 <> [] -> length idx = length p0 -> hp order fuel idx ws k p0 = Ok p ->
+      (order <= maxo)%N /\ k >= 1 /\ length p = length p0
+      /\ M (combine idx p) /\ Forall (fun x => (x < N.of_nat k)%N) p.
 
-  (* an accepted order is never answered by an error *)
-  Lemma hilbert_no_error tol maxo order fuel idx ws k p0 e :
-    length idx = length p0 -> 1 <= k -> (order <= maxo)%N ->
-    hilbert_partition tol maxo order fuel idx ws k p0 <> Err e.
-  Proof.
-    intros HL Hk Ho H. unfold hilbert_partition in H.
-    destruct (N.ltb_spec maxo order) as [C|_]; [lia|].
-    destruct p0 as [|x0 p0']; [discriminate|].
-    assert (Hne : idx <> []) by (destruct idx; [discriminate|congruence]).
-    destruct (weighted_quantiles_no_panic tol fuel idx ws k Hne Hk) as [[splits E]|E]; rewrite E in H; cbn [bind] in H;
-      [|discriminate].
-    destruct (assign_parts_total splits idx) as [ids E2]. rewrite E2 in H. discriminate.
-  Qed.
+    (* an Ok result has the range property (the empty input included: the entry
+       point returns the empty array) *)
+    Lemma hilbert_ok_range order fuel idx ws k p0 p :
+      length idx = length p0 -> hp order fuel idx ws k p0 = Ok p -> in_range k (length p0) p.
+    Proof.
+      intros HL H. destruct p0 as [|x0 p0'].
+      - unfold hilbert_partition in H. destruct (maxo <? order)%N; [discriminate|].
+        injection H as <-. split; [reflexivity|constructor].
+      - assert (Hne : x0 :: p0' <> []) by discriminate.
+        destruct (Hmono order fuel idx ws k (x0 :: p0') p Hne HL H) as (_ & _ & A & _ & B). split; assumption.
+    Qed.
 
-  (* PARTIAL: no panic and the range for every part count; termination of the
-     quantile search only for part_count <= 2 *)
-  Lemma hilbert_collect tol maxo : forall order fuel idx ws k p0,
-    length idx = length p0 -> 1 <= k -> (order <= maxo)%N ->
-    ((exists p, hilbert_partition tol maxo order fuel idx ws k p0 = Ok p /\ in_range k (length p0) p)
-     \/ hilbert_partition tol maxo order fuel idx ws k p0 = OutOfFuel)
+    (* an accepted order is never answered by an error.  C09_hilbert_no_panic says:
+       Ok, OutOfFuel, or InvalidOrder WITH THE LIMIT IT WAS CALLED WITH; the call
+       does not depend on the limit as long as the order passes it, so calling it
+       with two different passing limits excludes the error *)
+    Lemma hilbert_limit_irrelevant m1 m2 order fuel idx ws k p0 :
+      (order <= m1)%N -> (order <= m2)%N ->
+      hilbert_partition tol m1 order fuel idx ws k p0 = hilbert_partition tol m2 order fuel idx ws k p0.
+    Proof.
+      intros H1 H2. unfold hilbert_partition.
+      destruct (N.ltb_spec m1 order) as [C|_]; [lia|]. destruct (N.ltb_spec m2 order) as [C|_]; [lia|]. reflexivity.
+    Qed.
+
+    Lemma hilbert_no_error order fuel idx ws k p0 e :
+      length idx = length p0 -> 1 <= k -> (order <= maxo)%N -> hp order fuel idx ws k p0 <> Err e.
+    Proof.
+      intros HL Hk Ho H.
+      destruct (C09.C09_hilbert_no_panic tol maxo order fuel idx ws k p0 HL Hk) as [[[p E]|E]|E];
+        try (rewrite E in H; discriminate).
+      pose proof (hilbert_limit_irrelevant maxo (maxo + 1)%N order fuel idx ws k p0 Ho ltac:(lia)) as Q.
+      destruct (C09.C09_hilbert_no_panic tol (maxo + 1)%N order fuel idx ws k p0 HL Hk) as [[[p E2]|E2]|E2];
+        rewrite <- Q, E in E2; try discriminate.
+      injection E2 as E2. lia.
+    Qed.
+
+    Lemma hilbert_collect : forall order fuel idx ws k p0,
+      length idx = length p0 -> 1 <= k -> (order <= maxo)%N ->
+      ((exists p, hp order fuel idx ws k p0 = Ok p /\ in_range k (length p0) p)
+       \/ hp order fuel idx ws k p0 = OutOfFuel)
+      /\ (Forall (fun x => (x < 2 ^ 64)%N) idx -> k <= 2 -> 66 <= fuel ->
+          exists p, hp order fuel idx ws k p0 = Ok p /\ in_range k (length p0) p).
+    Proof.
+      intros order fuel idx ws k p0 HL Hk Ho. split.
+      - destruct (C09.C09_hilbert_no_panic tol maxo order fuel idx ws k p0 HL Hk) as [[[p E]|E]|E].
+        + left. exists p. split; [exact E|]. exact (hilbert_ok_range _ _ _ _ _ _ _ HL E).
+        + right. exact E.
+        + exfalso. exact (hilbert_no_error _ _ _ _ _ _ _ HL Hk Ho E).
+      - intros HB Hk2 Hf.
+        destruct (C09.C09_hilbert_returns_partial tol maxo order fuel idx ws k p0 HL HB (conj Hk Hk2) Hf) as [[p E]|E].
+        + exists p. split; [exact E|]. exact (hilbert_ok_range _ _ _ _ _ _ _ HL E).
+        + exfalso. exact (hilbert_no_error _ _ _ _ _ _ _ HL Hk Ho E).
+    Qed.
+  End Hilbert.
+
+  Lemma hilbert_collect_2d : forall order fuel idx ws k p0,
+    length idx = length p0 -> 1 <= k -> (order <= hilbert_max_order_2d)%N ->
+    ((exists p, C09.hilbert_impl_2d order fuel idx ws k p0 = Ok p /\ in_range k (length p0) p)
+     \/ C09.hilbert_impl_2d order fuel idx ws k p0 = OutOfFuel)
     /\ (Forall (fun x => (x < 2 ^ 64)%N) idx -> k <= 2 -> 66 <= fuel ->
-        exists p, hilbert_partition tol maxo order fuel idx ws k p0 = Ok p /\ in_range k (length p0) p).
-  Proof.
-    intros order fuel idx ws k p0 HL Hk Ho. split.
-    - destruct (hilbert_partition_no_panic tol maxo order fuel idx ws k p0 HL Hk) as [[[p E]|E]|E].
-      + left. exists p. split; [exact E|]. exact (hilbert_ok_range _ _ _ _ _ _ _ _ _ HL E).
-      + right. exact E.
-      + exfalso. exact (hilbert_no_error _ _ _ _ _ _ _ _ _ HL Hk Ho E).
-    - intros HB Hk2 Hf.
-      destruct (hilbert_partition_terminates_partial tol maxo order fuel idx ws k p0 HL HB (conj Hk Hk2) Hf) as [[p E]|E].
-      + exists p. split; [exact E|]. exact (hilbert_ok_range _ _ _ _ _ _ _ _ _ HL E).
-      + exfalso. exact (hilbert_no_error _ _ _ _ _ _ _ _ _ HL Hk Ho E).
-  Qed.
+        exists p, C09.hilbert_impl_2d order fuel idx ws k p0 = Ok p /\ in_range k (length p0) p).
+  Proof. exact (hilbert_collect _ _ _ C09.C09_hilbert_2d). Qed.
+
+  Lemma hilbert_collect_3d : forall order fuel idx ws k p0,
+    length idx = length p0 -> 1 <= k -> (order <= hilbert_max_order_3d)%N ->
+    ((exists p, C09.hilbert_impl_3d order fuel idx ws k p0 = Ok p /\ in_range k (length p0) p)
+     \/ C09.hilbert_impl_3d order fuel idx ws k p0 = OutOfFuel)
+    /\ (Forall (fun x => (x < 2 ^ 64)%N) idx -> k <= 2 -> 66 <= fuel ->
+        exists p, C09.hilbert_impl_3d order fuel idx ws k p0 = Ok p /\ in_range k (length p0) p).
+  Proof. exact (hilbert_collect _ _ _ C09.C09_hilbert_3d). Qed.
 
   (* ZCurve: for every quadrant function and every sort oracle *)
-  Lemma zcurve_collect nq maxo : forall q sorter order k n p0,
-    1 <= nq -> sort_contract sorter -> (forall path x, (q path x < N.of_nat nq)%N) ->
-    length p0 = n -> order <= maxo -> 1 <= k ->
-    exists p, zcurve true nq maxo q sorter order k n p0 = Ok p /\ in_range k n p.
+  Lemma zcurve_collect_2d : forall q sorter order k n p0,
+    ZCurveProofs.sort_contract sorter -> (forall path x, (q path x < 4)%N) ->
+    length p0 = n -> order <= zcurve_max_order_2d -> 1 <= k ->
+    exists p, C09.zcurve_impl_2d q sorter order k n p0 = Ok p /\ in_range k n p.
   Proof.
-    intros q sorter order k n p0 Hnq Hs Hq Hl Ho Hk.
-    destruct (zcurve_runs nq maxo q sorter order k n p0 Hnq Hs Hq Hl Ho Hk) as (p & E & Lp & _).
+    intros q sorter order k n p0 Hs Hq Hl Ho Hk.
+    destruct (C09.C09_zcurve_runs_2d q sorter order k n p0 Hs Hq Hl Ho Hk) as (p & E & Lp & _).
     exists p. split; [exact E|]. split; [exact Lp|].
-    pose proof (zcurve_ids_lt nq maxo q sorter order k n p0 p Hnq Hs Hq Hl Ho Hk E) as R.
+    pose proof (C09.C09_zcurve_ids_lt 4 zcurve_max_order_2d q sorter order k n p0 p ltac:(lia) Hs Hq Hl Ho Hk E) as R.
     rewrite Forall_forall in *. intros x Hx. specialize (R x Hx). lia.
   Qed.
 
-  Lemma zcurve_collect_2d : forall q sorter order k n p0,
-    sort_contract sorter -> (forall path x, (q path x < 4)%N) ->
-    length p0 = n -> order <= zcurve_max_order_2d -> 1 <= k ->
-    exists p, zcurve_impl_2d q sorter order k n p0 = Ok p /\ in_range k n p.
-  Proof. intros q sorter order k n p0 Hs Hq. apply (zcurve_collect 4 zcurve_max_order_2d); auto; lia. Qed.
-
   Lemma zcurve_collect_3d : forall q sorter order k n p0,
-    sort_contract sorter -> (forall path x, (q path x < 8)%N) ->
+    ZCurveProofs.sort_contract sorter -> (forall path x, (q path x < 8)%N) ->
     length p0 = n -> order <= zcurve_max_order_3d -> 1 <= k ->
-    exists p, zcurve_impl_3d q sorter order k n p0 = Ok p /\ in_range k n p.
-  Proof. intros q sorter order k n p0 Hs Hq. apply (zcurve_collect 8 zcurve_max_order_3d); auto; lia. Qed.
+    exists p, C09.zcurve_impl_3d q sorter order k n p0 = Ok p /\ in_range k n p.
+  Proof.
+    intros q sorter order k n p0 Hs Hq Hl Ho Hk.
+    destruct (C09.C09_zcurve_runs_3d q sorter order k n p0 Hs Hq Hl Ho Hk) as (p & E & Lp & _).
+    exists p. split; [exact E|]. split; [exact Lp|].
+    pose proof (C09.C09_zcurve_ids_lt 8 zcurve_max_order_3d q sorter order k n p0 p ltac:(lia) Hs Hq Hl Ho Hk E) as R.
+    rewrite Forall_forall in *. intros x Hx. specialize (R x Hx). lia.
+  Qed.
 End SfcC.
 
 (* ------------------------------------------------------------ MultiJagged *)
 Module MjC.
   Import Coq.QArith.QArith.
-  Import Coupe.Model.MultiJagged Coupe.Proofs.MultiJaggedProofs Coupe.Proofs.MultiJaggedExact.
+  Import Coupe.Model.MultiJagged Coupe.Proofs.MultiJaggedProofs.  (* MultiJaggedProofs: root_ok, sorter_ok, ord_ok only *)
   Open Scope N_scope.
 
   (* every arithmetic (binary64 included): IF the model returns, every element
@@ -202,7 +181,8 @@ Module MjC.
     length p = npts /\ Forall (fun x => x < k) p.
   Proof.
     intros A D npts wts sorter blk cxlt root ord k m p0 p Hr Hs Ho Hk1 Hk2 Hm Hl H.
-    destruct (mj_structure A D npts wts sorter blk cxlt root ord k m p0 p Hr Hs Ho Hk1 Hk2 Hm Hl H) as (A1 & A2 & _).
+    destruct (C11.C11_ids_in_range_and_jagged A D npts wts sorter blk cxlt root ord k m p0 p Hr Hs Ho Hk1 Hk2 Hm Hl H)
+      as (A1 & A2 & _).
     split; assumption.
   Qed.
 
@@ -215,7 +195,7 @@ Module MjC.
               /\ length p = npts /\ Forall (fun x => x < k) p.
   Proof.
     intros D npts wq sorter blk cxlt root ord k m p0 Hr Hs Ho Hk1 Hk2 Hm HD Hw Hlw Hl.
-    destruct (mj_exact_total D npts wq sorter blk cxlt root ord k m p0 Hr Hs Hk1 Hk2 Hm HD Hw Hlw Hl) as [p E].
+    destruct (C11.C11_exact_total D npts wq sorter blk cxlt root ord k m p0 Hr Hs Hk1 Hk2 Hm HD Hw Hlw Hl) as [p E].
     exists p. split; [exact E|].
     exact (mj_range QA D npts wq sorter blk cxlt root ord k m p0 p Hr Hs Ho Hk1 Hk2 Hm Hl E).
   Qed.
@@ -223,14 +203,13 @@ End MjC.
 
 (* ------------------------------------------------- Greedy, KarmarkarKarp *)
 Module NumC.
-  Import Coupe.Model.NumPart Coupe.Model.Greedy Coupe.Model.Kk
-         Coupe.Proofs.NumPartLemmas Coupe.Proofs.GreedyProofs Coupe.Proofs.KkProofs.
+  Import Coupe.Model.NumPart Coupe.Model.Greedy Coupe.Model.Kk Coupe.Proofs.NumPartLemmas.  (* NumPartLemmas: descZ, wts only *)
   Open Scope Z_scope.
 
   Lemma greedy_collect : forall ws k p0, length ws = length p0 -> (1 <= k)%nat ->
     exists p, greedy ws k p0 = Ok p /\ length p = length p0 /\ Forall (fun x => (x < N.of_nat k)%N) p.
   Proof.
-    intros ws k p0 Hl Hk. destruct (proj1 (greedy_total ws k p0) Hl) as (p & E & L & R).
+    intros ws k p0 Hl Hk. destruct (proj1 (C12.C12_greedy_total ws k p0) Hl) as (p & E & L & R).
     exists p. split; [exact E|]. split; [exact L|exact (R Hk)].
   Qed.
 
@@ -239,31 +218,34 @@ Module NumC.
     exists p, kk_partition srt ws k p0 = Ok p /\ length p = length p0 /\ Forall (fun x => (x < N.of_nat k)%N) p.
   Proof.
     intros srt H1 H2 ws k p0 Hnn Hk Hl.
-    destruct (kk_partition_spec srt H1 H2 ws k p0 Hnn Hk Hl) as (p & E & L & R & _).
+    destruct (C12.C12_kk srt H1 H2 ws k p0 Hnn Hk Hl) as (p & E & L & R & _).
     exists p. split; [exact E|]. split; assumption.
   Qed.
 End NumC.
 
 (* ------------------------------------------------- CompleteKarmarkarKarp *)
 Module CkkC.
-  Import Coupe.Model.Ckk Coupe.Proofs.CkkProofs Coupe.Gen.CkkGen.
+  Import Coupe.Model.Ckk.
   Open Scope Z_scope.
 
-  Definition ckk_impl := ckk ckk_sum_branch_separate.
-
   (* Ok => two-way ids for every element; the only error is NotFound; never a
-     panic, never out of fuel (formerly proved inline in Properties/C01.v) *)
+     panic, never out of fuel *)
   Lemma ckk_collect : forall ws tol p0,
     Forall (fun w => 0 <= w) ws -> ws <> [] -> tol_int (sumZ ws) tol <> None -> length ws = length p0 ->
-    (exists p, ckk_impl ws tol p0 = Ok p /\ length p = length ws /\ Forall (fun x => (x < 2)%N) p)
-    \/ ckk_impl ws tol p0 = Err NotFound.
+    (exists p, C13.ckk_impl ws tol p0 = Ok p /\ length p = length ws /\ Forall (fun x => (x < 2)%N) p)
+    \/ C13.ckk_impl ws tol p0 = Err NotFound.
   Proof.
-    unfold ckk_impl. intros ws tol p0 Hnn Hne Htol Hlen.
-    destruct (ckk ckk_sum_branch_separate ws tol p0) as [p|e|s|] eqn:E.
-    - left. exists p. destruct (ckk_sound ws tol p0 p Hnn Hne E) as [t [_ [_ [Hl [Htw _]]]]].
+    intros ws tol p0 Hnn Hne Htol Hlen.
+    destruct (C13.ckk_impl ws tol p0) as [p|e|s|] eqn:E.
+    - left. exists p. destruct (C13.C13_sound ws tol p0 p Hnn Hne E) as [t [_ [_ [Hl [Htw _]]]]].
       repeat split; auto. unfold two_way in Htw. rewrite Forall_forall in *. intros x Hx.
       specialize (Htw x Hx). lia.
-    - right. destruct (ckk_inv _ _ _ _ _ E Hne) as [[_ C]|[_ [[C _]|[t [_ HR]]]]]; try congruence.
+    - right. f_equal.
+      (* EXCEPTION to the maintenance rule: that NotFound is the ONLY error value is
+         not a property theorem of C13; it is read off the model through
+         CkkProofs.ckk_inv (if this breaks: weaken the conclusion to [exists e, Err e]) *)
+      unfold C13.ckk_impl in E.
+      destruct (Coupe.Proofs.CkkProofs.ckk_inv _ _ _ _ _ E Hne) as [[_ C]|[_ [[C _]|[t [_ HR]]]]]; try congruence.
       destruct (ckk_rec _ _ _ t []) as [[[last stps]|]|]; try congruence.
       destruct (Nat.ltb last (length p0)); [|discriminate].
       exfalso. clear -HR. revert HR. generalize (set_nth p0 last 0%N).
@@ -271,24 +253,16 @@ Module CkkC.
       destruct (nth_opt q (sa s)); [|discriminate].
       destruct (Nat.ltb (sb s) (length q)); [|discriminate].
       destruct (separate s); [destruct (n <=? 1)%N; [|discriminate]|]; eapply IH; eauto.
-    - exfalso. exact (ckk_no_panic ws tol p0 s Hnn Htol E).
-    - exfalso. exact (ckk_terminates _ ws tol p0 E).
+    - exfalso. exact (C13.C13_no_panic ws tol p0 s Hnn Htol E).
+    - exfalso. exact (C13.C13_terminates ws tol p0 E).
   Qed.
 End CkkC.
 
 (* --------------------------------------------------------------- Grid::rcb *)
 Module GridC.
-  Import Coupe.Model.GridRcb Coupe.Gen.GridRcbGen Coupe.Run.RunC10
-         Coupe.Proofs.GridRcbMedian Coupe.Proofs.GridRcbTree Coupe.Proofs.GridRcbChecker
-         Coupe.Proofs.GridRcbFloat Coupe.Proofs.GridRcbMain.
+  Import Coupe.Model.GridRcb Coupe.Proofs.GridRcbTree Coupe.Proofs.GridRcbMedian Coupe.Proofs.GridRcbFloat.
+  (* GridRcbTree / Median / Float: wf_grid, thr_ok_b, total_ok only *)
   Open Scope Z_scope.
-
-  (* as in Properties/C10.v *)
-  Definition gridrcb_impl := grid_rcb cfg_impl.
-  Definition tol := tol_bits cfg_impl.
-
-  Lemma literals : cfg_ok cfg_impl.
-  Proof. exact (conj (le_n 2) (conj eq_refl (conj eq_refl (conj eq_refl (conj (le_n 2) (le_S _ _ (le_n 2))))))). Qed.
 
   Definition in_range (k : nat) (n : nat) (ids : list N) : Prop :=
     length ids = n /\ Forall (fun q => (q < 2 ^ N.of_nat k)%N) ids.
@@ -296,31 +270,31 @@ Module GridC.
   (* axiom-free, with the float facts about the two thresholds as a premise *)
   Lemma grid_collect : forall fuel T fw ds ws k,
     wf_grid ds ws -> Forall (fun s => (1 <= s)%nat) ds -> Forall (fun w => 0 <= w) ws ->
-    (forall t, 0 <= t <= sumZ ws -> thr_ok_b fw tol t = true) ->
+    (forall t, 0 <= t <= sumZ ws -> thr_ok_b fw C10.tol t = true) ->
     Forall (fun s => (s < 2 ^ fuel)%nat) ds ->
-    exists ids, gridrcb_impl fuel T fw ds ws k (glen ds) = Ok ids /\ in_range k (glen ds) ids.
+    exists ids, C10.gridrcb_impl fuel T fw ds ws k (glen ds) = Ok ids /\ in_range k (glen ds) ids.
   Proof.
     intros fuel T fw ds ws k Hwf Hs Hnn Hthr Hf.
-    destruct (gridrcb_boxes cfg_impl literals fuel T fw ds ws k Hwf Hs Hnn Hthr Hf) as (ids & E & (L & R & _) & _).
+    destruct (C10.C10_gridrcb_boxes fuel T fw ds ws k Hwf Hs Hnn Hthr Hf) as (ids & E & (L & R & _) & _).
     exists ids. split; [exact E|]. split; assumption.
   Qed.
 
-  (* total weight below 2^46: the threshold facts are theorems (Flocq) *)
+  (* the totals [total_ok] covers: the threshold facts are theorems (Flocq) *)
   Lemma grid_collect_all : forall fuel T fw ds ws k,
     wf_grid ds ws -> Forall (fun s => (1 <= s)%nat) ds -> Forall (fun w => 0 <= w) ws ->
     total_ok fw (sumZ ws) ->
     Forall (fun s => (s < 2 ^ fuel)%nat) ds ->
-    exists ids, gridrcb_impl fuel T fw ds ws k (glen ds) = Ok ids /\ in_range k (glen ds) ids.
+    exists ids, C10.gridrcb_impl fuel T fw ds ws k (glen ds) = Ok ids /\ in_range k (glen ds) ids.
   Proof.
     intros fuel T fw ds ws k Hwf Hs Hnn Hsum Hf.
-    destruct (gridrcb_boxes_all cfg_impl literals eq_refl fuel T fw ds ws k Hwf Hs Hnn Hsum Hf) as (ids & E & (L & R & _) & _).
+    destruct (C10.C10_gridrcb_boxes_all fuel T fw ds ws k Hwf Hs Hnn Hsum Hf) as (ids & E & (L & R & _) & _).
     exists ids. split; [exact E|]. split; assumption.
   Qed.
 
   Lemma grid_collect_2d : forall fuel T fw w h ws k,
     (1 <= w)%nat -> (1 <= h)%nat -> length ws = (w * h)%nat -> Forall (fun x => 0 <= x) ws -> total_ok fw (sumZ ws) ->
     (w < 2 ^ fuel)%nat -> (h < 2 ^ fuel)%nat ->
-    exists ids, gridrcb_impl fuel T fw [w; h] ws k (w * h) = Ok ids /\ in_range k (w * h) ids.
+    exists ids, C10.gridrcb_impl fuel T fw [w; h] ws k (w * h) = Ok ids /\ in_range k (w * h) ids.
   Proof.
     intros fuel T fw w h ws k Hw Hh Hl Hnn Hsum Hfw Hfh.
     assert (G : glen [w; h] = (w * h)%nat) by (cbn [glen fold_right]; lia).
@@ -333,7 +307,7 @@ Module GridC.
     (1 <= w)%nat -> (1 <= h)%nat -> (1 <= d)%nat -> length ws = (w * h * d)%nat ->
     Forall (fun x => 0 <= x) ws -> total_ok fw (sumZ ws) ->
     (w < 2 ^ fuel)%nat -> (h < 2 ^ fuel)%nat -> (d < 2 ^ fuel)%nat ->
-    exists ids, gridrcb_impl fuel T fw [w; h; d] ws k (w * h * d) = Ok ids /\ in_range k (w * h * d) ids.
+    exists ids, C10.gridrcb_impl fuel T fw [w; h; d] ws k (w * h * d) = Ok ids /\ in_range k (w * h * d) ids.
   Proof.
     intros fuel T fw w h d ws k Hw Hh Hd Hl Hnn Hsum Hfw Hfh Hfd.
     assert (G : glen [w; h; d] = (w * h * d)%nat) by (cbn [glen fold_right]; lia).
